@@ -5,6 +5,7 @@ import Refinery.Gen.Stress
 Oracle for `collect.StressRelief` (C15).
 case args: incap=… peercap=… memmax=…           (metric denominators; not used by the model)
 ops:  adv <ns>
+      caps <peercap> <incap> <memmax>            denominators only (no output)
       local <peerq> <inq> <heap>                 gauges only; the resulting own level arrives with `recalc`
       peer <id> <level>                          obs: reports=<id:level:ts,…>
       junk <k>                                   obs: reports=…
@@ -46,7 +47,9 @@ def sStep (s : St) (op : List String) (exts : List (List String)) : St × Option
   match op with
   | ["adv", d] => match d.toNat? with
     | some d => ((step s (.adv d)).1, none) | none => (s, some "bad-op")
-  | ["local", a, b, c] => match a.toNat?, b.toNat?, c.toNat? with
+  | ["local", a, b, c] => match a.toInt?, b.toInt?, c.toInt? with
+    | some _, some _, some _ => (s, none) | _, _, _ => (s, some "bad-op")
+  | ["caps", a, b, c] => match a.toInt?, b.toInt?, c.toInt? with
     | some _, some _, some _ => (s, none) | _, _, _ => (s, some "bad-op")
   | ["peer", id, l] => match id.toNat?, l.toNat? with
     | some id, some l => let s' := (step s (.peer id l)).1; (s', some s!"reports={dump s'.reports}")
@@ -110,15 +113,17 @@ def sMon (m : MSt) (op : List String) (exts : List (List String)) (obs : Option 
       let e : Ev := { cfg := m.cfg, now := m.now, loc := loc, cluster := cluster, level := level,
                       before := m.on, after := on }
       let c := m.cfg
-      let bounded := m.bounded && decide (loc ≤ 100)
+      let bounded := m.bounded      -- peer reports only; the own level must be in range by itself
+      let f0 := if decide (100 < loc) then
+        [fail "C15:level-out-of-range" s!"own (published) level {loc} > 100 (cluster {cluster}, level {level})"] else []
       let want := rms (m.sp.recent timeoutNs loc)
       let f1 := if cluster != want then
         [fail "C15:level-formula:cluster-not-rms-of-recent-reports"
           s!"cluster level {cluster}, RMS of the recent non-zero reports is {want}"] else []
       let f2 := if level != max cluster loc then
         [fail "C15:level-formula:level-not-max" s!"level {level}, own {loc}, cluster {cluster}"] else []
-      let f3 := if bounded && decide (100 < level) then
-        [fail "C15:level-bounded" s!"level {level} with every report and own level ≤ 100"] else []
+      let f3 := if bounded && decide (loc ≤ 100) && (decide (100 < level) || decide (100 < cluster)) then
+        [fail "C15:level-bounded" s!"level {level}, cluster {cluster} with every report and own level ≤ 100"] else []
       let f4 := match c.mode with
         | .never => if on then [fail "C15:never-mode-on" "relief on after a recalculation in never mode"] else []
         | .always => if !on then [fail "C15:always-mode-off" "relief off after a recalculation in always mode"] else []
@@ -144,7 +149,7 @@ def sMon (m : MSt) (op : List String) (exts : List (List String)) (obs : Option 
                | none => [])
             else []
           fOn ++ fOff
-      ({ m with sp := m.sp.step (.recalc loc), evs := e :: m.evs, on := on, bounded := bounded }, f1 ++ f2 ++ f3 ++ f4)
+      ({ m with sp := m.sp.step (.recalc loc), evs := e :: m.evs, on := on, bounded := bounded }, f0 ++ f1 ++ f2 ++ f3 ++ f4)
     | _, _, _, _ => (m, [fail "C15:unparsable-observation" s!"recalc answered {obs.getD "-"}"])
   | _ => (m, [])
 
